@@ -16,6 +16,8 @@ Sub-checks
   grid      the same on dense grids over the whole validity ranges + location/value of the density maximum
   anchors   published values (Tanaka, Korson table II, Holz, Bradley-Pitzer, CRC 20 C acid densities, repo-quoted values)
   edges     float-exact range boundaries: inclusive (no warning), one ulp beyond warns
+  arrays    one call with a numpy array of 2..8 temperatures (below / inside / above the range, mixtures included):
+            every in-range element equals the scalar call; temperature warning iff some element is outside the range
 """
 import math
 import os
@@ -172,6 +174,16 @@ def observe(obj):
         for i in range(NDIM):
             dim[i] += dv[i] * float(e)
     return mag, tuple(dim), fallback
+
+
+def observe_array(obj):
+    """([SI magnitudes], dimension vector, used_fallback) of an array-valued result: the unit part goes through
+    `observe` (as a quantity of magnitude 1), the numbers are multiplied by the resulting factor."""
+    import numpy as np
+    if not hasattr(obj, "dimensionality"):
+        return [float(x) for x in np.ravel(np.asarray(obj, dtype=float))], (0.0,) * NDIM, False
+    factor, dim, fallback = observe(obj.units)
+    return [float(x) * factor for x in np.ravel(np.asarray(obj.magnitude, dtype=float))], dim, fallback
 
 
 def same_dim(got, want):
@@ -871,6 +883,180 @@ def check_mobility(case, ctx):
                 got_si=val, plain_si=float(plain), result=repr(res)[:120])
 
 
+# -- arrays -------------------------------------------------------------------------------------------------------------
+# Which functions take a numpy array of temperatures (decided by calling the unchanged tree):
+#   water_density, water_self_diffusion_coefficient, water_permittivity (P absent, scalar or an array of the same
+#   length), Henry / HenryWithUnits (__call__, get_c_at_T_and_P, get_P_at_T_and_c): plain numbers and units mode
+#   (K or mK; the result of the density / diffusivity keeps an unreduced mK**n/K**n, which `observe` reduces).
+#   water_viscosity: plain numbers; with units=... it raises TypeError for an array (float(exponent.simplified)) -
+#   generated and recorded as an open known finding, its warning is still judged.
+# Not generated: sulfuric_acid_density (float(t / K) and a (1, 5) power table: scalar T only, in both modes; an array
+# of mass fractions does not work either), density_from_concentration (scalar fixed-point iteration),
+# lg_solubility_ratio (no temperature), nernst_potential / electrical_mobility_from_D (no validity range; closed forms
+# judged point-wise by their own sub-checks).  Python lists are not accepted by any of them (list - float).
+ARRAY_FNS = WATER_FNS + ["henry"]
+# an element of the array call against the scalar call with the same float in the same mode: the same float formula
+# evaluated by numpy's vector loops instead of its scalar path (pow / exp / log may differ by an ulp, 2.2e-16, with
+# amplification <= |d ln f / d ln x| ~ 50) - 1e-12 leaves two decades
+REL_ARRAY = 1e-12
+
+
+@st.composite
+def array_cases(draw):
+    fn = draw(st.sampled_from(ARRAY_FNS))
+    mode = draw(st.sampled_from(["plain", "units", "units"]))
+    units = mode == "units"
+    case = {"fn": fn, "mode": mode, "units": {"T": draw(st.sampled_from(T_UNITS)) if units else "K"}}
+    if fn == "henry":
+        case["cls"] = "HenryWithUnits" if (units and draw(st.booleans())) else "Henry"
+        case["T"] = draw(st.lists(st.floats(250.0, 400.0).map(lambda x: round(x, 6)), min_size=2, max_size=8))
+        case.update({"Hcp": draw(log_uniform(-6.0, 2.0)), "Tderiv": float(draw(st.integers(-20, 100)) * 100),
+                     "P": draw(log_uniform(-3.0, 2.0)), "c": draw(log_uniform(-6.0, 1.0))})
+        un = case["units"]
+        un.update({"Hcp": "M/atm", "Tderiv": "K", "P": "atm", "c": "M"})
+        if units:
+            un["Hcp"] = draw(st.sampled_from(H_UNITS))
+            un["Tderiv"] = draw(st.sampled_from(T_UNITS))
+            un["P"] = draw(st.sampled_from(["atm", "bar", "Pa"]))
+            un["c"] = draw(st.sampled_from(["M", "mM", "mol/m3"]))
+        return case
+    spec = WATER[fn]
+    case["T"] = draw(st.lists(in_range_values(spec["lo"], spec["hi"]), min_size=2, max_size=8))
+    case["warn"] = draw(st.sampled_from([True, True, False]))
+    if spec["T0"] and draw(st.integers(0, 3)) == 3:
+        case["T0"] = 273.15
+        case["units"]["T0"] = draw(st.sampled_from(T_UNITS)) if units else "K"
+    if fn == "water_permittivity":
+        kind = draw(st.sampled_from(["none", "scalar", "array"]))
+        if kind == "scalar":
+            case["P"] = draw(log_uniform(-0.3, 3.0))
+        elif kind == "array":
+            case["P"] = [draw(log_uniform(-0.3, 3.0)) for _ in case["T"]]
+        if kind != "none":
+            case["units"]["P"] = draw(st.sampled_from(P_UNITS)) if units else "bar"
+    return case
+
+
+def _check_henry_array(case, ctx):
+    import numpy as np
+    from chempy.henry import Henry, HenryWithUnits
+    un = case["units"]
+    units = case["mode"] == "units"
+    Ts = [float(t) for t in case["T"]]
+    sc = _mode_labels(ctx, case, ("henry:" + case["cls"], "n:%d" % len(Ts), "Tunit:" + un["T"]))
+    ctx.nontrivial(sc)
+    if units:
+        a = [to_q(case["Hcp"], "M/atm", un["Hcp"]), to_q(case["Tderiv"], "K", un["Tderiv"])]
+        Pq, cq = to_q(case["P"], "atm", un["P"]), to_q(case["c"], "M", un["c"])
+        kw = {} if case["cls"] == "HenryWithUnits" else {"units": _du()}
+        conv = lambda t: to_q(t, "K", un["T"])      # noqa: E731
+    else:
+        a = [case["Hcp"], case["Tderiv"]]
+        Pq, cq, kw = case["P"], case["c"], {}
+        conv = lambda t: t                          # noqa: E731
+    obj = sut((HenryWithUnits if case["cls"] == "HenryWithUnits" else Henry), *a)
+    if is_err(obj):
+        return raised(ctx, obj, "constructor")
+    Tarr = conv(np.array(Ts, dtype=float))
+    for what, fn_, want_dim in (("call", lambda T: obj(T, **kw), DIM_HENRY),
+                                ("get_c_at_T_and_P", lambda T: obj.get_c_at_T_and_P(T, Pq, **kw), _CONC),
+                                ("get_P_at_T_and_c", lambda T: obj.get_P_at_T_and_c(T, cq, **kw), _PRESS)):
+        res, msgs = call(fn_, Tarr)
+        if is_err(res):
+            raised(ctx, res, "array:" + what, fn="henry")
+            continue
+        ctx.require(not msgs, "unexpected_warning", what=what, messages=msgs)
+        got = sut(observe_array, res)
+        if is_err(got) or len(got[0]) != len(Ts):
+            ctx.fail("array_result_shape", what=what, result=repr(res)[:160], n=len(Ts))
+            continue
+        vals, dim, _ = got
+        want = want_dim if units else DIM_NONE
+        ctx.require(same_dim(dim, want), "result_dimension", what=what, got=list(dim), expected=list(want),
+                    result=repr(res)[:120])
+        for i, t in enumerate(Ts):
+            one, _ = call(fn_, conv(t))
+            if is_err(one):
+                raised(ctx, one, "scalar:" + what, fn="henry")
+                break
+            v, _d, _ = observe(one)
+            if not close(vals[i], v, REL_ARRAY):
+                ctx.fail("array_element_differs_from_scalar_call", what=what, index=i, T=t, array_si=vals[i], scalar_si=v)
+                break
+
+
+def check_arrays(case, ctx):
+    import numpy as np
+    fn = case["fn"]
+    if fn == "henry":
+        return _check_henry_array(case, ctx)
+    spec = WATER[fn]
+    f = _fn(fn)
+    un = case["units"]
+    units = case["mode"] == "units"
+    Ts = [float(t) for t in case["T"]]
+    n = len(Ts)
+    lo, hi = spec["lo"], spec["hi"]
+    classes = [classify(t, lo, hi) for t in Ts]
+    inside = [c in ("in", "edge_in") for c in classes]
+    sides = sorted({"below" if t < lo else "above" if t > hi else "in" for t in Ts})
+    P = case.get("P")
+    pkind = "none" if P is None else "array" if isinstance(P, list) else "scalar"
+    sc = _mode_labels(ctx, case, (fn, "n:%d" % n, "T:" + "+".join(sides), "warn:%s" % case["warn"], "Tunit:" + un["T"]))
+    if fn == "water_permittivity":
+        ctx.label("P:" + pkind)
+    if any(c.startswith("edge") for c in classes):
+        ctx.label("has_edge_element")
+    # non-trivial: elements on both sides of a boundary in one call (the case a scalar call cannot express), or a scaled unit
+    ctx.nontrivial(len(sides) >= 2 or sc)
+    want = set() if all(inside) else {"T"}
+
+    def build(Tval, Pval):
+        a, k = [], {}
+        if units:
+            a.append(to_q(Tval, "K", un["T"]))
+            if Pval is not None:
+                a.append(to_q(Pval, "bar", un["P"]))
+            if "T0" in case:
+                k["T0"] = to_q(case["T0"], "K", un["T0"])
+            k["units"] = _du()
+        else:
+            a.append(Tval)
+            if Pval is not None:
+                a.append(Pval)
+            if "T0" in case:
+                k["T0"] = case["T0"]
+        return a, k
+
+    Parr = np.array(P, dtype=float) if pkind == "array" else P
+    a, k = build(np.array(Ts, dtype=float), Parr)
+    res, msgs = call(f, *a, warn=case["warn"], **k)
+    # the warning is issued before the value is computed: judged also when the call goes on to raise
+    judge_warnings(ctx, msgs, case["warn"], want, "array")
+    if is_err(res):
+        return raised(ctx, res, "array", fn=fn, mode=case["mode"])
+    got = sut(observe_array, res)
+    if is_err(got) or len(got[0]) != n:
+        return ctx.fail("array_result_shape", fn=fn, result=repr(res)[:160], n=n)
+    vals, dim, fb = got
+    if fb:
+        ctx.label("observe_fallback")
+    want_dim = spec["dim"] if units else DIM_NONE
+    ctx.require(same_dim(dim, want_dim), "result_dimension", fn=fn, got=list(dim), expected=list(want_dim),
+                result=repr(res)[:120])
+    for i, t in enumerate(Ts):
+        if not inside[i]:
+            continue            # "in their valid ranges": values outside the range are not judged
+        ai, ki = build(t, P[i] if pkind == "array" else P)
+        one, _ = call(f, *ai, warn=False, **ki)
+        if is_err(one):
+            return raised(ctx, one, "scalar", fn=fn, mode=case["mode"])
+        v, _d, _ = observe(one)
+        ctx.require(math.isfinite(vals[i]), "not_finite_inside_range", fn=fn, index=i, T=t, got=vals[i])
+        if not close(vals[i], v, REL_ARRAY):
+            return ctx.fail("array_element_differs_from_scalar_call", fn=fn, index=i, T=t, array_si=vals[i], scalar_si=v)
+
+
 # -- shape --------------------------------------------------------------------------------------------------------------
 C0 = 273.15
 # (function, varied argument, lo, hi, direction, fixed arguments)
@@ -1151,4 +1337,9 @@ SUBCHECKS = [
                   "0.1 K / 0.01 K grid"),
     SubCheck("anchors", check_anchor, enumerate=enum_anchors, rule="published table values, plain and units=default_units"),
     SubCheck("edges", check_edge, enumerate=enum_edges, rule="float-exact boundaries, inclusive; one ulp beyond warns"),
+    SubCheck("arrays", check_arrays, strategy=array_cases(), quick=800, thorough=40000,
+             tolerances={"array element vs scalar call (relative)": REL_ARRAY, "dimension exponents": 1e-9},
+             rule="numpy array of 2-8 temperatures per call, each drawn below / inside / above the range (Henry: 250-400 "
+                  "K); 4 water correlations (permittivity with P absent / scalar / array) and Henry / HenryWithUnits, "
+                  "plain and units mode (T in K|mK); in-range elements == scalar calls, warning iff any element outside"),
 ]
